@@ -191,12 +191,15 @@ def execute_and_judge(ctx, vh, cases, name="main", keep=None):
 
 def judge_lines(ctx, name, raw, module="TraceObj"):
     """Validate ndjson lines (one case per line, lines are independent) with specs/<module>.tla.
-    The lines are spread over up to NCPU TLC processes by WEIGHT (bytes of the line, a good measure of
+    The lines are spread over TLC processes (NCPU at a time) by WEIGHT (bytes of the line, a good measure of
     the judge's work), heaviest first onto the lightest shard, so that a few large cases do not make
     one shard the straggler.  Returns (findings [{pred, case, why}], exercise counters summed)."""
     from concurrent.futures import ThreadPoolExecutor
     findings, ex = [], {}
-    nsh = max(1, min(core.NCPU, 16, len(raw)))
+    # at most NCPU shards run at a time; a shard holds at most ~64 MB of trace (TLC needs about 20x the
+    # bytes of a trace as heap: 3 GB per process, 6 processes - the machine is shared)
+    total = sum(len(ln) for ln in raw)
+    nsh = max(1, min(max(min(core.NCPU, 16), -(-total // 64_000_000)), 96, len(raw)))
     shards = [[] for _ in range(nsh)]           # lists of case numbers
     load = [0] * nsh
     for i in sorted(range(len(raw)), key=lambda i: -len(raw[i])):
@@ -204,7 +207,7 @@ def judge_lines(ctx, name, raw, module="TraceObj"):
         shards[k].append(i)
         load[k] += len(raw[i]) + 2000           # a small per-line cost keeps short lines spread as well
     shards = [sorted(sh) for sh in shards if sh]
-    heap = "3g" if max(load) < 150e6 else "8g"
+    heap = "3g" if max(load) < 100e6 else "6g"        # only a single line of > 100 MB gets there
 
     def one(k):
         d = ctx.scratch("%s-shard%02d" % (name, k))
